@@ -80,6 +80,17 @@ def _cases_core(rng, tier):
         t = rng.choice("01")
         yield "wallet seedb:%s:%s" % (hx(sd), t), "from-seed-bytes"
         yield "wallet seedh:%s:%s" % (sx(sd.hex()), t), "from-seed-hex"
+    # byte seeds that happen to be TEXT of another accepted input form: the ASCII bytes of a hex dump (the hex-seed
+    # constructor's language), of digits, of Base58 / printable text, of whitespace — each is a legal seed in its own right
+    texts = ["000102030405060708090a0b0c0d0e0f", "deadbeefcafebabe", "0123456789abcdef" * 4, "DEADBEEF" * 4, "00" * 16,
+             "ff" * 32, "de ad be ef ca fe ba be de ad be ef", " " * 16, "\n" * 32, "1234567890123456",
+             "xprv9s21ZrQH143K3QTDL4LXw2F7HEK3wJUD2", "abandon abandon ", "0x" + "ab" * 15]
+    for tx in texts + ["".join(rng.choice("0123456789abcdefABCDEF") for _ in range(2 * rng.randint(8, 32))) for _ in range(6)]:
+        sd = tx.encode()
+        t = rng.choice("01")
+        yield "wallet seedb:%s:%s" % (hx(sd), t), "seed-bytes-look-like-text"
+        yield "master %s %s -" % (hx(sd), t), "seed-bytes-look-like-text-master"
+        yield "wallet seedh:%s:%s" % (sx(sd.hex()), t), "seed-bytes-look-like-text-hexroute"
     yield "wallet seedh:%s:0" % sx("zz"), "seed-hex-bad"
     yield "wallet seedh:%s:0" % sx("abc"), "seed-hex-odd"
 
@@ -108,6 +119,9 @@ def _master_fields(v):
 def oracle(line, out):
     tok = line.split(" ")
     v = ok_val(out)
+    if tok[0] == "master":
+        from .c01 import oracle as o1
+        return o1(line, out)
     if tok[0] == "seed":
         m, p = unstr(tok[1]), unstr(tok[3])
         if v is None or unhex(v) != indep_seed(m, p):
